@@ -38,18 +38,18 @@ def failingSequences : List (String × List FOp) := [
   ("pickle-large-fails-at-6-flush", [.mkstemp, .write 2, .write 34926, .write 23276, .write 5223, .flush, .failed, .raised]),
   ("pickle-large-fails-at-7-fsync", [.mkstemp, .write 2, .write 34926, .write 23276, .write 5223, .flush, .flush, .failed, .raised]),
   ("array-raw-fails-at-1-write", [.mkstemp, .failed, .truncate, .write 2, .write 0, .write 0, .write 4345, .flush, .flush, .fsync, .close, .fsyncDir, .rename]),
-  ("array-raw-fails-at-2-write", [.mkstemp, .write 128, .failed, .truncate, .write 2, .write 0, .write 0, .write 4345, .writeDirect 128, .flush, .flush, .fsync, .close, .fsyncDir, .rename]),
-  ("array-raw-fails-at-3-flush", [.mkstemp, .write 128, .write 24000, .failed, .truncate, .write 2, .write 0, .write 0, .write 4345, .writeDirect 24128, .flush, .flush, .fsync, .close, .fsyncDir, .rename]),
-  ("array-raw-fails-at-4-fsync", [.mkstemp, .write 128, .write 24000, .flush, .failed, .truncate, .write 2, .write 0, .write 0, .write 4345, .writeDirect 24128, .flush, .flush, .fsync, .close, .fsyncDir, .rename]),
+  ("array-raw-fails-at-2-write", [.mkstemp, .write 128, .failed, .truncate, .write 2, .write 0, .write 0, .write 4345, .flush, .flush, .fsync, .close, .fsyncDir, .rename]),
+  ("array-raw-fails-at-3-flush", [.mkstemp, .write 128, .write 24000, .failed, .truncate, .write 2, .write 0, .write 0, .write 4345, .flush, .flush, .fsync, .close, .fsyncDir, .rename]),
+  ("array-raw-fails-at-4-fsync", [.mkstemp, .write 128, .write 24000, .flush, .failed, .truncate, .write 2, .write 0, .write 0, .write 4345, .flush, .flush, .fsync, .close, .fsyncDir, .rename]),
   ("array-compressed-fails-at-1-write", [.mkstemp, .failed, .raised]),
   ("array-compressed-fails-at-2-write", [.mkstemp, .write 2, .write 0, .write 0, .failed, .raised]),
   ("array-compressed-fails-at-3-flush", [.mkstemp, .write 2, .write 0, .write 0, .write 4345, .failed, .raised]),
   ("array-compressed-fails-at-4-flush", [.mkstemp, .write 2, .write 0, .write 0, .write 4345, .flush, .failed, .raised]),
   ("array-compressed-fails-at-5-fsync", [.mkstemp, .write 2, .write 0, .write 0, .write 4345, .flush, .flush, .failed, .raised]),
   ("array-object-fails-at-1-write", [.mkstemp, .failed, .truncate, .write 2, .write 0, .write 0, .write 213, .flush, .flush, .fsync, .close, .fsyncDir, .rename]),
-  ("array-object-fails-at-2-write", [.mkstemp, .write 128, .failed, .truncate, .write 2, .write 0, .write 0, .write 213, .flush, .writeDirect 128, .flush, .fsync, .close, .fsyncDir, .rename]),
-  ("array-object-fails-at-3-flush", [.mkstemp, .write 128, .write 162, .failed, .truncate, .write 2, .write 0, .write 0, .write 213, .flush, .writeDirect 290, .flush, .fsync, .close, .fsyncDir, .rename]),
-  ("array-object-fails-at-4-fsync", [.mkstemp, .write 128, .write 162, .flush, .failed, .truncate, .write 2, .write 0, .write 0, .write 213, .flush, .writeDirect 290, .flush, .fsync, .close, .fsyncDir, .rename])]
+  ("array-object-fails-at-2-write", [.mkstemp, .write 128, .failed, .truncate, .write 2, .write 0, .write 0, .write 213, .flush, .flush, .fsync, .close, .fsyncDir, .rename]),
+  ("array-object-fails-at-3-flush", [.mkstemp, .write 128, .write 162, .failed, .truncate, .write 2, .write 0, .write 0, .write 213, .flush, .flush, .fsync, .close, .fsyncDir, .rename]),
+  ("array-object-fails-at-4-fsync", [.mkstemp, .write 128, .write 162, .flush, .failed, .truncate, .write 2, .write 0, .write 0, .write 213, .flush, .flush, .fsync, .close, .fsyncDir, .rename])]
 /-- the commands redis_store.dump sends that change the result key, per case (overwrite of an existing key) -/
 def redisDumpCommands : List (String × List String) := [
   ("pickle-small", ["SET"]),
